@@ -59,7 +59,7 @@ func (k *KnownFindings) matchObligation(prop, fn, name string) *KnownFinding {
 		if !propIn(f.Property, prop) || f.Obligation == "" {
 			continue
 		}
-		if f.Function != "" && f.Function != fn {
+		if f.Function != "" && !fnMatches(f.Function, fn) {
 			continue
 		}
 		if ok, _ := regexp.MatchString(f.Obligation, stripLines(name)); ok {
@@ -75,7 +75,7 @@ func (k *KnownFindings) matchFailure(prop, fn string, fl RACFailure) *KnownFindi
 		if !propIn(f.Property, prop) || f.What == "" {
 			continue
 		}
-		if f.Function != "" && f.Function != fn {
+		if f.Function != "" && !fnMatches(f.Function, fn) {
 			continue
 		}
 		if ok, _ := regexp.MatchString(f.What, fl.What); !ok {
@@ -729,6 +729,16 @@ func fileSafe(s string) string {
 func propIn(list, prop string) bool {
 	for _, p := range strings.Split(list, ",") {
 		if strings.TrimSpace(p) == prop {
+			return true
+		}
+	}
+	return false
+}
+
+// fnMatches: the function field of a known finding is a name or an alternation of names.
+func fnMatches(pat, fn string) bool {
+	for _, alt := range strings.Split(pat, "|") {
+		if alt == fn {
 			return true
 		}
 	}
